@@ -161,11 +161,33 @@ func calleeErrImpliesFalse(callee *ssa.Function, idx, ei int) bool {
 	return ok && n > 0
 }
 
-// isGoTarget: fn is the function of some `go` statement in its parent.
+// isGoTarget: fn is the function of some `go` statement in its parent; a named function qualifies when the module
+// only ever starts it with `go` (the body of a goroutine extracted into a function or method).
 func isGoTarget(fn *ssa.Function) bool {
 	par := fn.Parent()
 	if par == nil {
-		return false
+		if curProgram == nil {
+			return false
+		}
+		nGo, nOther := 0, 0
+		for _, g := range curProgram.ModFuncs {
+			allInstrs(g, func(_ *ssa.BasicBlock, in ssa.Instruction) {
+				if ci, ok := in.(ssa.CallInstruction); ok && ci.Common().StaticCallee() == fn {
+					if _, isGo := in.(*ssa.Go); isGo {
+						nGo++
+					} else {
+						nOther++
+					}
+					return
+				}
+				for _, op := range in.Operands(nil) {
+					if op != nil && *op == ssa.Value(fn) {
+						nOther++ // taken as a value
+					}
+				}
+			})
+		}
+		return nGo > 0 && nOther == 0
 	}
 	found := false
 	allInstrs(par, func(_ *ssa.BasicBlock, in ssa.Instruction) {
@@ -216,6 +238,7 @@ func (p *Program) checkErrSite(s *errSite) errVerdict {
 		return t != nil && t.Contains(func(x *Term) bool { return x.V == s.errVal })
 	}
 	idioms := map[string]bool{}
+	var viaHelper []helperStore
 	for _, pa := range paths {
 		// did this path pass the call at all? (the walk starts at the block's beginning)
 		tested, nonNil := false, false
@@ -254,6 +277,13 @@ func (p *Program) checkErrSite(s *errSite) errVerdict {
 							handedOff = true
 						} else if e.Instr != ssa.Instruction(s.call) {
 							passedOn = true
+							// a helper that keeps the error in a field of a shared record (mutex-protected first-error bookkeeping)
+							if call, isCall := e.Instr.(*ssa.Call); isCall && !call.Common().IsInvoke() && call.Common().StaticCallee() != nil && i < len(call.Common().Args) {
+								if j, fld, ok := paramStoredToField(call.Common().StaticCallee(), i); ok && j < len(call.Common().Args) {
+									storedToCaptured = true
+									viaHelper = append(viaHelper, helperStore{recv: call.Common().Args[j], field: fld})
+								}
+							}
 						}
 					}
 				}
@@ -282,7 +312,7 @@ func (p *Program) checkErrSite(s *errSite) errVerdict {
 						idioms["ok-flag dispatch (callee returns ok=false with every error)"] = true
 					} else if storedToCaptured {
 						idioms["stored to a captured variable"] = true
-						if why := capturedErrLost(f, s.errVal); why != "" {
+						if why := capturedErrLost(f, s.errVal, viaHelper); why != "" {
 							v.status, v.detail = "swallowed", why
 							return v
 						}
@@ -298,7 +328,7 @@ func (p *Program) checkErrSite(s *errSite) errVerdict {
 					idioms["handed to options.errors"] = true
 				case storedToCaptured:
 					idioms["stored to a captured variable"] = true
-					if why := capturedErrLost(f, s.errVal); why != "" {
+					if why := capturedErrLost(f, s.errVal, viaHelper); why != "" {
 						v.status, v.detail = "swallowed", why
 						return v
 					}
@@ -353,10 +383,87 @@ func (p *Program) checkErrSite(s *errSite) errVerdict {
 
 // capturedErrLost: e is stored into a variable captured from the parent; the parent (unless the
 // closure itself also returns e) must return that variable as its error. Returns "" when fine.
-func capturedErrLost(f *ssa.Function, e ssa.Value) string {
+type helperStore struct {
+	recv  ssa.Value // the record the helper stores into, as passed at the call site
+	field int
+}
+
+// paramStoredToField: h stores its parameter i (boxed or not) into a field of the record another parameter j points to.
+func paramStoredToField(h *ssa.Function, i int) (j int, field int, ok bool) {
+	if h == nil || i >= len(h.Params) || len(h.Blocks) == 0 {
+		return 0, 0, false
+	}
+	allInstrs(h, func(_ *ssa.BasicBlock, in ssa.Instruction) {
+		st, isSt := in.(*ssa.Store)
+		if !isSt || ok {
+			return
+		}
+		v := st.Val
+		if mi, isMI := v.(*ssa.MakeInterface); isMI {
+			v = mi.X
+		}
+		if v != ssa.Value(h.Params[i]) {
+			return
+		}
+		fa, isFA := st.Addr.(*ssa.FieldAddr)
+		if !isFA {
+			return
+		}
+		for k, p := range h.Params {
+			if fa.X == ssa.Value(p) {
+				j, field, ok = k, fa.Field, true
+			}
+		}
+	})
+	return
+}
+
+func capturedErrLost(f *ssa.Function, e ssa.Value, via []helperStore) string {
 	par := f.Parent()
 	if par == nil {
 		return ""
+	}
+	// an error kept by a helper in a field of a captured record: the parent must return that field as its error
+	for _, hs := range via {
+		ld, isLd := hs.recv.(*ssa.UnOp)
+		if !isLd || ld.Op != token.MUL {
+			return "the error is stored by a helper into a record that is not a captured variable of " + funcName(par)
+		}
+		fv, isFV := ld.X.(*ssa.FreeVar)
+		if !isFV {
+			return "the error is stored by a helper into a record that is not a captured variable of " + funcName(par)
+		}
+		var cell *ssa.Alloc
+		allInstrs(par, func(_ *ssa.BasicBlock, pin ssa.Instruction) {
+			if mc, ok := pin.(*ssa.MakeClosure); ok && mc.Fn == f {
+				for i, b := range mc.Bindings {
+					if i < len(f.FreeVars) && f.FreeVars[i] == fv {
+						cell, _ = b.(*ssa.Alloc)
+					}
+				}
+			}
+		})
+		pei := errIdx(par)
+		if cell == nil || pei < 0 {
+			return "the error is stored by a helper into a record of " + funcName(par) + ", which does not return it"
+		}
+		returned := false
+		allInstrs(par, func(_ *ssa.BasicBlock, in ssa.Instruction) {
+			r, ok := in.(*ssa.Return)
+			if !ok || pei >= len(r.Results) {
+				return
+			}
+			if u, ok := r.Results[pei].(*ssa.UnOp); ok && u.Op == token.MUL {
+				if fa, ok := u.X.(*ssa.FieldAddr); ok && fa.Field == hs.field {
+					if l2, ok := fa.X.(*ssa.UnOp); ok && l2.Op == token.MUL && l2.X == ssa.Value(cell) {
+						returned = true
+					}
+				}
+			}
+		})
+		if !returned {
+			return "the error is kept in a field of the captured record " + cell.Comment + " but " + funcName(par) + " never returns that field as its error"
+		}
 	}
 	// the free variable(s) e is stored to
 	var cells []*ssa.Alloc
